@@ -11,6 +11,7 @@ use lattices::collections::{
 };
 use lattices::map_union::MapUnion;
 use lattices::set_union::SetUnion;
+use lattices::union_find::{UnionFindBTreeMap, UnionFindHashMap, UnionFindSingletonMap};
 use lattices::{
     Atomize, Conflict, DomPair, IsBot, IsTop, LatticeFrom, Max, Merge, Min, NaiveLatticeOrd, Pair,
     Point, VecUnion, WithBot, WithTop,
@@ -59,15 +60,10 @@ fn guard<T>(f: impl FnOnce() -> T) -> Option<T> {
     catch(AssertUnwindSafe(f)).ok()
 }
 
-/// everything a registered "self" lattice type must implement (this is `Lattice` + codec)
-trait Lat:
-    Codec + Merge<Self> + LatticeFrom<Self> + PartialOrd + PartialEq + IsBot + IsTop + NaiveLatticeOrd
-{
-}
-impl<T> Lat for T where
-    T: Codec + Merge<T> + LatticeFrom<T> + PartialOrd + PartialEq + IsBot + IsTop + NaiveLatticeOrd
-{
-}
+/// everything a registered "self" lattice type must implement (this is `Lattice` + codec, minus
+/// `LatticeFrom<Self>`, which gets its own handler so that a type can be registered without it)
+trait Lat: Codec + Merge<Self> + PartialOrd + PartialEq + IsBot + IsTop + NaiveLatticeOrd {}
+impl<T> Lat for T where T: Codec + Merge<T> + PartialOrd + PartialEq + IsBot + IsTop + NaiveLatticeOrd {}
 
 type Handler = fn(&mut Ctx, &str, &[&str]) -> Option<String>;
 
@@ -191,9 +187,17 @@ fn self_ops<T: Lat>(cx: &mut Ctx, op: &str, args: &[&str]) -> Option<String> {
             }
             Some(r.to_string())
         }
+        _ => None,
+    }
+}
+
+fn from_op<T: Lat + LatticeFrom<T>>(cx: &mut Ctx, op: &str, args: &[&str]) -> Option<String> {
+    let k = T::kind();
+    match (op, args) {
         ("from", [b]) => {
             let b: T = parse_full(b)?;
             let r = T::lattice_from(b.clone());
+            cx.rec.count(&format!("from:{k}"));
             if cx.mode == Mode::C01 {
                 cx.check(r == b, "c01-from", k);
             }
@@ -378,6 +382,75 @@ fn point_ops(cx: &mut Ctx, op: &str, args: &[&str]) -> Option<String> {
     }
 }
 
+// ------------------------------------------------------------------------------- union-find Atomize
+/// `ufatomize <h|b> <a-b,c-d,..|->`: a union-find value built by `union` calls from `Default` (the states
+/// the library produces), atomized.  The answer is the number of atoms (the atoms themselves depend on the
+/// path compression history); the three C06 clauses are evaluated on the real code, the re-merged value is
+/// also compared with a naive partition through `same`.
+fn parse_pairs(s: &str) -> Option<Vec<(u32, u32)>> {
+    if s == "-" {
+        return Some(vec![]);
+    }
+    s.split(',')
+        .map(|p| {
+            let (a, b) = p.split_once('-')?;
+            if a.len() > 6 || b.len() > 6 {
+                return None;
+            }
+            Some((a.parse().ok()?, b.parse().ok()?))
+        })
+        .collect()
+}
+macro_rules! uf_case {
+    ($ty:ty, $cx:expr, $pairs:expr) => {{
+        let mut uf = <$ty>::default();
+        for (a, b) in $pairs.iter() {
+            uf.union(*a, *b);
+        }
+        let atoms: Vec<UnionFindSingletonMap<u32>> = uf.clone().atomize().collect();
+        $cx.rec.count(&format!("ufatomize:n={}", atoms.len().min(4)));
+        if !atoms.is_empty() {
+            $cx.rec.nontrivial();
+        }
+        if $cx.mode == Mode::C06 {
+            $cx.check(atoms.iter().all(|x| !x.is_bot()), "c06-nonbot", "UnionFind");
+            $cx.check(atoms.is_empty() == uf.is_bot(), "c06-empty-iff-bot", "UnionFind");
+            let mut re = <$ty>::default();
+            for x in atoms.iter().cloned() {
+                re.merge(x);
+            }
+            $cx.check(re == uf, "c06-reform", "UnionFind");
+            // naive partition: class label per element
+            let elems: Vec<u32> = $pairs.iter().flat_map(|(a, b)| [*a, *b]).collect();
+            let mut cls: HashMap<u32, u32> = elems.iter().map(|x| (*x, *x)).collect();
+            for (a, b) in $pairs.iter() {
+                let (ca, cb) = (cls[a], cls[b]);
+                for v in cls.values_mut() {
+                    if *v == cb {
+                        *v = ca;
+                    }
+                }
+            }
+            let ok = elems.iter().all(|a| elems.iter().all(|b| re.same(*a, *b).into_reveal() == (cls[a] == cls[b])));
+            $cx.check(ok, "c06-reform-partition", "UnionFind");
+        }
+        atoms.len().to_string()
+    }};
+}
+fn uf_ops(cx: &mut Ctx, args: &[&str]) -> Option<String> {
+    match args {
+        [r, ps] => {
+            let pairs = parse_pairs(ps)?;
+            match *r {
+                "h" => Some(uf_case!(UnionFindHashMap<u32>, cx, pairs)),
+                "b" => Some(uf_case!(UnionFindBTreeMap<u32>, cx, pairs)),
+                _ => None,
+            }
+        }
+        _ => None,
+    }
+}
+
 // ------------------------------------------------------------------------------- registry
 struct TypeInfo {
     desc: String,
@@ -385,6 +458,8 @@ struct TypeInfo {
     pool: Vec<String>,
     has_default: bool,
     atomizable: bool,
+    /// registered with the `from` op (`LatticeFrom<Self>`)
+    has_from: bool,
     /// property oracle applies (false for DomPair with a partially ordered key: documented non-lattice)
     lawful: bool,
 }
@@ -406,7 +481,14 @@ fn gen_text<T: Codec>(rng: &mut Rng, big: bool) -> String {
     T::generate(rng, big).show()
 }
 impl Registry {
-    fn add<T: Lat>(&mut self, lawful: bool) {
+    fn add<T: Lat + LatticeFrom<T>>(&mut self, lawful: bool) {
+        self.add_nf::<T>(lawful);
+        self.handlers.get_mut(&T::desc()).unwrap().push(from_op::<T>);
+        self.types.last_mut().unwrap().has_from = true;
+    }
+    /// without the `from` op: `WithTop<Conflict<_>>` — kept apart so that the harness does not depend on
+    /// the exact bounds of `LatticeFrom for WithTop` (the other WithTop instantiations exercise it)
+    fn add_nf<T: Lat>(&mut self, lawful: bool) {
         let d = T::desc();
         assert!(!self.handlers.contains_key(&d), "duplicate type {d}");
         self.handlers.entry(d.clone()).or_default().push(self_ops::<T>);
@@ -419,17 +501,18 @@ impl Registry {
             pool: T::pool().iter().map(|x| x.show()).collect(),
             has_default: false,
             atomizable: false,
+            has_from: false,
             lawful,
         });
     }
-    fn add_d<T: Lat + Default>(&mut self, lawful: bool) {
+    fn add_d<T: Lat + LatticeFrom<T> + Default>(&mut self, lawful: bool) {
         self.add::<T>(lawful);
         self.handlers.get_mut(&T::desc()).unwrap().push(default_op::<T>);
         self.types.last_mut().unwrap().has_default = true;
     }
     fn add_da<T>(&mut self)
     where
-        T: Lat + Default + Atomize,
+        T: Lat + LatticeFrom<T> + Default + Atomize,
         T::Atom: Codec,
     {
         self.add_d::<T>(true);
@@ -509,6 +592,10 @@ fn registry() -> Registry {
     // signed integers (bottom of Max is the negative MIN)
     reg!(r.add_d(true): Max<i8>, Min<i8>, Max<i32>, Min<i32>, MH<Max<i8>>, WB<Min<i8>>, WT<Max<i8>>,
         DP<Max<i8>, SH>, PR<Max<i8>, Min<i32>>, VU<Min<i8>>);
+    // the other instantiations of ord.rs's `impls_numeric!` list and the hand-written `char` impls
+    reg!(r.add_d(true): Max<u16>, Min<u16>, Max<u64>, Min<u64>, Max<u128>, Min<u128>, Max<usize>, Min<usize>,
+        Max<i16>, Min<i16>, Max<i64>, Min<i64>, Max<i128>, Min<i128>, Max<isize>, Min<isize>, Max<char>, Min<char>,
+        WB<Max<char>>, WT<Min<char>>, MH<Min<u128>>, DP<Max<char>, SH>, WT<Min<i128>>, VU<Max<u64>>, PR<Max<i64>, Min<u16>>);
     // #[derive(Lattice)] structs with three fields
     reg!(r.add_d(true): Tri<X8, SH, XB>, Tri<WT<X8>, MH<SH>, NB>, Tri<SH, SB, VU<X8>>, Tri<(), X8, WB<SH>>,
         MH<Tri<X8, SH, XB>>, WB<Tri<X8, XB, NB>>);
@@ -516,7 +603,8 @@ fn registry() -> Registry {
     // DomPair over a partially ordered key: documented not to be a lattice; correspondence only
     reg!(r.add_d(false): DP<PR<X8, XB>, SH>, DP<SH, X8>);
     // no Default
-    reg!(r.add(true): CF, WT<CF>, PR<CF, X8>, DP<X8, CF>);
+    reg!(r.add(true): CF, PR<CF, X8>, DP<X8, CF>);
+    reg!(r.add_nf(true): WT<CF>);
 
     // cross-representation pairs (Self, Other)
     reg2!(r.cross: (SH, SB), (SH, SV), (SH, SA), (SH, SO), (SH, SS), (SB, SH), (SB, SV), (SB, SA), (SB, SO), (SB, SS));
@@ -536,6 +624,10 @@ fn exec(reg: &Registry, rec: &mut Recorder, mode: Mode, oracle_on: bool, line: &
     let parts: Vec<&str> = line.split(' ').collect();
     let op = parts[0];
     let args = &parts[1..];
+    if op == "ufatomize" {
+        let mut cx = Ctx { rec, mode, oracle: oracle_on, line };
+        return uf_ops(&mut cx, args).unwrap_or_else(|| "bad-op".into());
+    }
     if args.contains(&"pt") {
         let mut cx = Ctx { rec, mode, oracle: oracle_on, line };
         return point_ops(&mut cx, op, args).unwrap_or_else(|| "bad-op".into());
@@ -580,7 +672,9 @@ fn lines_for_triple(mode: Mode, t: &TypeInfo, a: &str, b: &str, c: &str) -> Vec<
             ls.push(format!("merge {d} {d} {a} {a}"));
             ls.push(format!("assoc {d} {a} {b} {c}"));
             ls.push(format!("assoc {d} {c} {a} {b}"));
-            ls.push(format!("from {d} {d} {b}"));
+            if t.has_from {
+                ls.push(format!("from {d} {d} {b}"));
+            }
         }
         Mode::C02 => {
             for x in [a, b, c] {
@@ -727,8 +821,35 @@ fn main() {
             }
         }
     }
-    // part 2: seeded random cases, cycling through all types and pairs
     let root = Rng::new(args.seed);
+    if mode == Mode::C06 {
+        // union-find: every sequence of <= 2 unions over {0,1,2}, both backings
+        let dom: Vec<(u32, u32)> = (0..3).flat_map(|a| (0..3).map(move |b| (a, b))).collect();
+        let show = |ps: &[(u32, u32)]| if ps.is_empty() { "-".to_string() } else { ps.iter().map(|(a, b)| format!("{a}-{b}")).collect::<Vec<_>>().join(",") };
+        let mut seqs: Vec<Vec<(u32, u32)>> = vec![vec![]];
+        for p in &dom {
+            seqs.push(vec![*p]);
+            for q in &dom {
+                seqs.push(vec![*p, *q]);
+            }
+        }
+        for (i, sq) in seqs.iter().enumerate() {
+            no += 1;
+            let r = if i % 2 == 0 { "h" } else { "b" };
+            run_case(&reg, &mut rec, mode, no, "ty=uf pool", &[format!("ufatomize {r} {}", show(sq))]);
+        }
+        // seeded random union histories
+        for i in 0..(args.cases / 8).max(20) {
+            let mut rng = root.fork(1_000_000 + i);
+            let d = if rng.chance(1, 3) { 9 } else { 5 };
+            let n = rng.range(0, 8) as usize;
+            let sq: Vec<(u32, u32)> = (0..n).map(|_| (rng.below(d) as u32, rng.below(d) as u32)).collect();
+            no += 1;
+            let r = if rng.chance(1, 2) { "h" } else { "b" };
+            run_case(&reg, &mut rec, mode, no, "ty=uf rnd", &[format!("ufatomize {r} {}", show(&sq))]);
+        }
+    }
+    // part 2: seeded random cases, cycling through all types and pairs
     let nt = reg.types.len() as u64;
     let np = reg.pairs.len() as u64;
     for i in 0..args.cases {
@@ -783,6 +904,8 @@ fn main() {
         "default cf",
         "default wt(cf)",
         "atomize mx8 3",
+        "ufatomize h 1-2,x",
+        "ufatomize q 1-2",
         "merge pt pt 1 2",
         "merge pt pt 2 2",
         "cmp pt pt 1 2",
